@@ -251,6 +251,15 @@ fn fp_iso<F: linfa_linear::Float + Bits>(m: &FittedIsotonicRegression<F>, x: &Ar
     let b: Array1<F> = m.predict(q);
     f.arr("predict_query", &b);
     f.seq("predict_single", singles(q, |r| -> Array1<F> { m.predict(r) }));
+    // queries with missing values (NaN): whatever the answer for such a row is, it is a function of the input
+    let mut qn = q.clone();
+    for i in (0..qn.nrows()).step_by(3) {
+        qn[[i, 0]] = F::nan();
+    }
+    // (some heap traffic of the same size class first, as a program would have)
+    drop(std::hint::black_box(vec![F::one(); qn.nrows()]));
+    let c: Array1<F> = m.predict(&qn);
+    f.arr("predict_query_with_nan_rows", &c);
 }
 
 fn iso_run<F: linfa_linear::Float + Bits>(p: &P, kind: IsoKind, weighted: bool) -> Fingerprint {
